@@ -11,7 +11,7 @@ import types
 
 import z3
 
-from .sym import (Sym, SInt, SBool, SReal, SBuf, SOpaque, SIPStr, Blob, Unsupported, mk_int, mk_bool, mk_real,
+from .sym import (Sym, SInt, SBool, SReal, SBuf, SOpaque, SIPStr, SDecStr, Blob, Unsupported, mk_int, mk_bool, mk_real,
                   int_term, real_term, bool_term, is_intlike, is_reallike, bits_of, buf_of, is_buflike,
                   _mask_upto, _t, _add)
 from . import bufops
@@ -137,11 +137,10 @@ def _hash_term(I, x):
         x = SBuf.from_bytes(x)
     if isinstance(x, SBuf):
         HB = z3.Function('hash!oct', z3.IntSort(), z3.IntSort(), z3.IntSort())
-        if not x.all_octets():
-            raise Unsupported("hash of buffer with opaque part")
-        h = z3.IntVal(len(x.chunks))
-        for c in x.chunks:
-            h = HB(h, _t(c))
+        octs = bufops.expand(I.ctx, x)      # case split on the length when it is symbolic (bounded by the path condition)
+        h = z3.IntVal(len(octs))
+        for c in octs:
+            h = HB(h, int_term(c))
         return h
     if isinstance(x, tuple):
         return int_term(hash_model(I, x))
@@ -163,6 +162,9 @@ def m_int(I, *args, **kw):
         I.ctx.assumptions.add("float arithmetic treated as exact real arithmetic")
         t = v.t
         return mk_int(z3.If(t >= 0, z3.ToInt(t), -z3.ToInt(-t)))
+    if isinstance(v, SDecStr):
+        I.ctx.assumptions.add("int(decimal text of n) == n (trusted)")
+        return v.value
     if isinstance(v, Sym):
         raise Unsupported("int() of %s" % type(v).__name__)
     f = I.lookup_class_attr(type(v), '__int__') if I._is_repo_instance(v) else None
@@ -836,7 +838,8 @@ def m_struct_unpack(I, fmt, data):
                 w = z3.If(w >= (1 << (8 * size - 1)), w - (1 << (8 * size)), w)
                 out.append(mk_int(z3.simplify(w)))
             else:
-                out.append(mk_int(w, (1 << (8 * size)) - 1))
+                # keep the segment view of the recombined octets
+                out.append(acc if isinstance(acc, (int, SInt)) else mk_int(w, (1 << (8 * size)) - 1))
         else:
             I.ctx.assumptions.add("struct.pack/unpack of IEEE-754 floats: uninterpreted word function with unpack(pack(x)) == round(x) axiom")
             out.append(mk_real(f32_value(w) if code == 'f' else f64_value(w)))
